@@ -491,6 +491,10 @@ class AwareASTNode(DataClassSerializeMixin):
         # Now we can safely attach this node to the registry
         AwareASTNode._nodes[self.id] = self
 
+        # Children may have changed while this node was detached (it was not
+        # among their ancestors then), so the cached content id may be stale
+        self._set_content_id()
+
         return None
 
     def _attach(self, operation: t.Literal["create", "attach", "replace"]) -> None:
